@@ -268,8 +268,8 @@ func c14Workspace(c *report.Collector, tier string) {
 				}
 				w := world.Build(spec)
 				for i := 0; i < np; i++ {
-					w.Reader.Fail[w.Paths[i].Path] = failMask&(1<<i) != 0
-					w.Reader.Hide[w.Paths[i].Path] = hideMask&(1<<i) != 0
+					w.Reader.Fail[world.PK(w.Paths[i])] = failMask&(1<<i) != 0
+					w.Reader.Hide[world.PK(w.Paths[i])] = hideMask&(1<<i) != 0
 				}
 				l.Count("ws_fault_subsets", 1)
 				for _, qstr := range qs {
